@@ -206,6 +206,21 @@ CHECKS = {
         "modulo 2*pi) are spot-evaluated on the extracted terms and recorded as such. Not decided: get_random_point containment and points "
         "within round-off of a face; ScalarField.project only through the integrate weights.",
     },
+    "C11": {
+        "level": "other",
+        "technique": "static: abstract interpretation of numpy/numba make_expression_function under all (single_arg, user_funcs, consts) configurations into sibling tables; reaching-definition (def-use) rules on differentiate/derivatives, from_expression, _check_signature; extracted SPECIAL_FUNCTIONS and axis-alias tables",
+        "text": "NARROW CLAUSE ONLY -- does not establish that a compiled expression evaluates to its formula (that is produced at run time by "
+        "sympy's parser, simplifier, printers and lambdify, which no static analysis of /repo can bound). Establishes structural necessary "
+        "conditions: numpy and numba expression compilers use the same printer settings, user-function precedence and module order; "
+        "constants and variables reach lambdify and the call in the same order; every special function is known to the printer, present in "
+        "the namespace and implemented with the printed arity; derivatives are taken with respect to the requested symbol(s) in vars order "
+        "and keep signature, user_funcs and consts (also in the copy constructors); from_expression passes coordinates in grid.axes order "
+        "and writes components where they were read; alias lists and axis-alias tables map every alias to its canonical variable.",
+        "note": "Trusted: sympy semantics (lambdify positional binding and module priority; known functions printed as name(args); Heaviside "
+        "default second argument; derive_by_array index order); the LIB_MEANING table (numpy.heaviside/hypot, scipy.special.erf meaning and "
+        "arity); dict insertion order. Run-time behaviour of sympy and numba is NOT decided; the private _make_expression_array route and "
+        "evaluate() are not covered.",
+    },
 }
 
 NOT_APPLICABLE: dict[str, str] = {}
